@@ -25,6 +25,48 @@ def from_abs(a):
     return (y, m, d, sec // 3600, sec // 60 % 60, sec % 60)
 
 
+def jd_clock_rules(ctx):
+    """the real Julian-date -> clock formulas on sampled instants: round trip and the carries second -> minute -> hour -> next day"""
+    p = ctx.prog
+    ctx.rule('JD-CLOCK', 'real Julian-date float formulas evaluated on sampled instants: round trip and half-second validity')
+    # ---- real float formulas
+    I2 = ctx.interp(fuel=30000000)
+    I2.forbidden.discard('JulianDay::from_ymd_hms')
+    I2.forbidden.discard('JulianDay::get_solar_time')
+    t2 = T(I2)
+
+    def st2(x):
+        return I2.call('SolarTime::from_ymd_hms', list(x))
+
+    def tup2(v):
+        return (py(t2.m(v, 'get_year')), py(t2.m(v, 'get_month')), py(t2.m(v, 'get_day')), py(t2.m(v, 'get_hour')), py(t2.m(v, 'get_minute')), py(t2.m(v, 'get_second')))
+    sample_days = [(1, 1, 1), (4, 2, 29), (1582, 10, 4), (1582, 10, 15), (1600, 2, 29), (1900, 2, 28), (2000, 1, 1), (2023, 1, 31), (2024, 2, 29), (2024, 12, 31), (5000, 6, 30), (9999, 12, 31)]
+    secs = sorted(set(list(range(23 * 3600, 86400)) + list(range(0, 86400, 1237)) + [0, 1, 59, 60, 61, 3599, 3600, 43199, 43200, 43201]))
+    rt_dom = [(d + (s // 3600, s // 60 % 60, s % 60)) for d in sample_days for s in (secs if d in ((2023, 1, 31), (1582, 10, 4)) else secs[::7] + [86399])]
+
+    def roundtrip(x):
+        v = st2(x)
+        return tup2(t2.m(t2.m(v, 'get_julian_day'), 'get_solar_time'))
+    table(ctx, 'JD-CLOCK', 'JD:roundtrip', rt_dom, roundtrip, lambda x: x, 'instant -> Julian date -> instant returns the same instant (real float formulas; month ends, leap days, the gap, range ends)',
+          str, fn_site(p, 'JulianDay::get_solar_time'))
+
+    # fractional Julian dates just below carry boundaries: must be a valid instant within half a second
+    def frac(x):
+        (y, m, d, h, mi, s), off = x
+        jd = CAL.jdn(y, m, d) - 0.5 + (h * 3600 + mi * 60 + s + off) / 86400.0
+        v = t2.m(SV('JulianDay', {'day': jd}), 'get_solar_time')
+        got = tup2(v)
+        a = abs_sec(got)
+        target = abs_sec((y, m, d, h, mi, s)) + off
+        return (CAL.exists(got[0], got[1], got[2]) and got[3] <= 23 and got[4] <= 59 and got[5] <= 59, abs(a - target) <= 0.5 + 1e-3)
+    fr_base = [(2023, 1, 31, 23, 59, 59), (2023, 1, 30, 23, 59, 59), (2023, 6, 16, 23, 59, 59), (2024, 2, 29, 23, 59, 59), (2024, 12, 31, 23, 59, 59), (1582, 10, 4, 23, 59, 59),
+               (2023, 6, 16, 11, 59, 59), (2023, 6, 16, 11, 58, 59), (2023, 6, 16, 0, 0, 0), (2023, 6, 16, 12, 0, 0), (2000, 2, 28, 23, 59, 59), (1999, 12, 31, 23, 59, 59),
+               (1582, 10, 15, 23, 59, 59), (1582, 10, 21, 23, 59, 59), (1582, 10, 30, 23, 59, 59), (1582, 10, 31, 23, 59, 59), (1582, 10, 3, 23, 59, 59), (9999, 12, 30, 23, 59, 59)]
+    table(ctx, 'JD-CLOCK', 'JD:fractional', [(b, off) for b in fr_base for off in (-0.49, -0.3, 0.0, 0.3, 0.49, 0.51, 0.7, 0.99)], frac, lambda x: (True, True),
+          'any fractional Julian date yields a valid instant within half a second (carries 60->minute, 60->hour, 24->next day incl. month/year ends)', str, fn_site(p, 'JulianDay::get_solar_time'))
+
+
+
 def run(ctx):
     ctx.exhaustive = False
     ctx.exhaustive_note = 'carry tables complete over the listed boundary set; Julian-date round trip on ~12,600 sampled instants'
@@ -61,7 +103,7 @@ def run(ctx):
     def sub_orc(x):
         d = abs_sec(x[0]) - abs_sec(x[1])
         return (d, d < 0, d > 0, d == 0)
-    inst = base + [(2023, 1, 31, 23, 59, 58), (2023, 1, 31, 23, 58, 59), (2023, 1, 31, 22, 59, 59), (2023, 2, 1, 0, 0, 0), (1582, 10, 15, 0, 0, 9), (1582, 10, 4, 23, 59, 50)]
+    inst = base + [(1500, 2, 28, 12, 0, 0), (1500, 3, 1, 12, 0, 0), (1500, 12, 31, 0, 0, 1), (100, 3, 1, 0, 0, 0), (100, 2, 28, 23, 59, 59), (2023, 1, 31, 23, 59, 58), (2023, 1, 31, 23, 58, 59), (2023, 1, 31, 22, 59, 59), (2023, 2, 1, 0, 0, 0), (1582, 10, 15, 0, 0, 9), (1582, 10, 4, 23, 59, 50)]
     table(ctx, 'PETE-CAL', 'SolarTime::subtract', [(a, b) for a in inst for b in inst], sub, sub_orc,
           'the difference of two instants is their distance in seconds; before/after coincide with its sign', str, fn_site(p, 'SolarTime::subtract'))
 
@@ -82,41 +124,7 @@ def run(ctx):
     table(ctx, 'PETE-TABLE', 'SolarTime::new', g, lambda x: I.call('SolarTime::new', [2000, 1, 1, x[0], x[1], x[2]]).ok, lambda x: x[0] <= 23 and x[1] <= 59 and x[2] <= 59,
           'an instant is accepted iff hour<=23, minute<=59, second<=59', str, fn_site(p, 'SolarTime::new'))
 
-    # ---- real float formulas
-    I2 = ctx.interp(fuel=30000000)
-    I2.forbidden.discard('JulianDay::from_ymd_hms')
-    I2.forbidden.discard('JulianDay::get_solar_time')
-    t2 = T(I2)
-
-    def st2(x):
-        return I2.call('SolarTime::from_ymd_hms', list(x))
-
-    def tup2(v):
-        return (py(t2.m(v, 'get_year')), py(t2.m(v, 'get_month')), py(t2.m(v, 'get_day')), py(t2.m(v, 'get_hour')), py(t2.m(v, 'get_minute')), py(t2.m(v, 'get_second')))
-    sample_days = [(1, 1, 1), (4, 2, 29), (1582, 10, 4), (1582, 10, 15), (1600, 2, 29), (1900, 2, 28), (2000, 1, 1), (2023, 1, 31), (2024, 2, 29), (2024, 12, 31), (5000, 6, 30), (9999, 12, 31)]
-    secs = sorted(set(list(range(23 * 3600, 86400)) + list(range(0, 86400, 1237)) + [0, 1, 59, 60, 61, 3599, 3600, 43199, 43200, 43201]))
-    rt_dom = [(d + (s // 3600, s // 60 % 60, s % 60)) for d in sample_days for s in (secs if d in ((2023, 1, 31), (1582, 10, 4)) else secs[::7] + [86399])]
-
-    def roundtrip(x):
-        v = st2(x)
-        return tup2(t2.m(t2.m(v, 'get_julian_day'), 'get_solar_time'))
-    table(ctx, 'JD-CLOCK', 'JD:roundtrip', rt_dom, roundtrip, lambda x: x, 'instant -> Julian date -> instant returns the same instant (real float formulas; month ends, leap days, the gap, range ends)',
-          str, fn_site(p, 'JulianDay::get_solar_time'))
-
-    # fractional Julian dates just below carry boundaries: must be a valid instant within half a second
-    def frac(x):
-        (y, m, d, h, mi, s), off = x
-        jd = CAL.jdn(y, m, d) - 0.5 + (h * 3600 + mi * 60 + s + off) / 86400.0
-        v = t2.m(SV('JulianDay', {'day': jd}), 'get_solar_time')
-        got = tup2(v)
-        a = abs_sec(got)
-        target = abs_sec((y, m, d, h, mi, s)) + off
-        return (CAL.exists(got[0], got[1], got[2]) and got[3] <= 23 and got[4] <= 59 and got[5] <= 59, abs(a - target) <= 0.5 + 1e-3)
-    fr_base = [(2023, 1, 31, 23, 59, 59), (2023, 1, 30, 23, 59, 59), (2023, 6, 16, 23, 59, 59), (2024, 2, 29, 23, 59, 59), (2024, 12, 31, 23, 59, 59), (1582, 10, 4, 23, 59, 59),
-               (2023, 6, 16, 11, 59, 59), (2023, 6, 16, 11, 58, 59), (2023, 6, 16, 0, 0, 0), (2023, 6, 16, 12, 0, 0), (2000, 2, 28, 23, 59, 59), (1999, 12, 31, 23, 59, 59),
-               (1582, 10, 15, 23, 59, 59), (1582, 10, 21, 23, 59, 59), (1582, 10, 30, 23, 59, 59), (1582, 10, 31, 23, 59, 59), (1582, 10, 3, 23, 59, 59), (9999, 12, 30, 23, 59, 59)]
-    table(ctx, 'JD-CLOCK', 'JD:fractional', [(b, off) for b in fr_base for off in (-0.49, -0.3, 0.0, 0.3, 0.49, 0.51, 0.7, 0.99)], frac, lambda x: (True, True),
-          'any fractional Julian date yields a valid instant within half a second (carries 60->minute, 60->hour, 24->next day incl. month/year ends)', str, fn_site(p, 'JulianDay::get_solar_time'))
+    # ---- real float formulas: part of the shared bundle jd_tables (every property that turns term instants into days relies on them)
 
     ctx.assumptions.append('civil date <-> day number replaced by the calendar oracle for the integer clock code (C01 decides that layer)')
     ctx.not_decided.append('round trip for every second of every day 0001-9999 (sampled: 12 days incl. all calendar corner cases; per-second exhaustive enumeration refused)')
